@@ -298,6 +298,9 @@ type refResult struct {
 
 func (r refResult) String() string {
 	if r.err != "" {
+		if r.err == "first" || r.err == "single" {
+			return "E:lib" // a library error; which wording it has is not compared (see errClass)
+		}
 		return "E:" + r.err
 	}
 	return "V:" + r.val
